@@ -387,6 +387,14 @@ class RandomGen:
             return b.T(self.reads(scope))
         if r < 0.8:
             return b.expr(kind='name', name=self.r.choice(scope))
+        if r < 0.84 and depth == 0 and self.contexts:      # a literal operand / branch: x or None, D() and True, T() if D() else 0
+            lit = self.r.choice([b.expr(kind='none'), b.expr(kind='bool', k=1), b.expr(kind='bool', k=0), b.expr(kind='const', k=0)])
+            q = self.r.random()
+            if q < 0.4:
+                return b.expr(kind=self.r.choice(['and', 'or']), args=[b.T(self.reads(scope)), lit])
+            if q < 0.7:
+                return b.expr(kind=self.r.choice(['and', 'or']), args=[b.D(self.reads(scope, 0, 1)), lit])
+            return b.expr(kind='ifexp', args=[b.D(self.reads(scope, 0, 1)), lit, b.T(self.reads(scope, 0, 1))])
         if r < 0.9 and self.ifexp:
             inner = (lambda: b.expr(kind='ifexp', args=[b.D(self.reads(scope, 0, 1)), b.T(self.reads(scope, 0, 1)), b.T(self.reads(scope, 0, 1))]))
             return b.expr(kind='ifexp', args=[self.test(scope, 1),
@@ -744,7 +752,18 @@ def enc(v):
 
 
 class IList(list):
+    """The list an I() tracer returns: iterating it logs every fetch (also the one that finds it exhausted), so that the
+    iteration protocol itself - how often the iterator is advanced - is part of the observable behaviour."""
     serial = 0
+    run = None
+
+    def __iter__(self):
+        j = 0
+        for x in list.__iter__(self):
+            j += 1
+            self.run.log.append(['N', self.serial, [['i', j, 0]]])
+            yield x
+        self.run.log.append(['N', self.serial, [['i', j + 1, 0]]])
 
 
 class KVDict(dict):
@@ -789,6 +808,7 @@ class Run:
         s = len(self.log)
         r = IList(Tok(('e', s, j)) for j in range(1, d + 1))
         r.serial = s
+        r.run = self
         return r
 
     def DEC(self, k):
